@@ -179,3 +179,29 @@ def normalised_function(fn):
             inner.append(c)
     out['inner'] = inner
     return out
+
+
+def main_loop(top, contains_call):
+    """(index, condition node, body statements) of the statement of `top` that is the loop containing a call of
+    `contains_call`. `while (c) {B}`, `for (;c;) {B}` and `for (;;) { if (!c) break; B }` are one shape."""
+    from .cfront import callee_name
+    for i, st in enumerate(top):
+        if st.get('kind') not in ('WhileStmt', 'ForStmt', 'DoStmt'):
+            continue
+        if not any(e.get('kind') == 'CallExpr' and callee_name(e) == contains_call for e in walk(st)):
+            continue
+        if st['kind'] == 'WhileStmt':
+            cond, body = st['inner'][0], st['inner'][1]
+        elif st['kind'] == 'ForStmt':
+            cond, body = st['inner'][2], st['inner'][-1]
+        else:
+            cond, body = st['inner'][1], st['inner'][0]
+        items = list(body.get('inner', [])) if body.get('kind') == 'CompoundStmt' else [body]
+        if (not cond or not cond.get('kind')) and items and items[0].get('kind') == 'IfStmt' and len(items[0]['inner']) == 2:
+            th = items[0]['inner'][1]
+            kinds = [x.get('kind') for x in (th.get('inner', []) if th.get('kind') == 'CompoundStmt' else [th])]
+            if kinds == ['BreakStmt']:
+                cond = norm_cond(negate(items[0]['inner'][0]))
+                items = items[1:]
+        return i, cond, items
+    return None, None, None
